@@ -234,13 +234,21 @@ CHECKS = {
  "C16": dict(
   technique="Lean 4 totality proofs over an API model with explicit bounds-checked indexing (panic outcome) + grammar-based call correspondence",
   text="Proof: C16_*_total - no argument tuple (any shard count, nil/empty/unequal shards, any index, masks of any length or nil, "
-       "any integer outSize) reaches the panic outcome of any method model; C16_new_total_int / C16_new_usable - for ALL integers "
+       "any integer outSize) reaches the panic outcome of any method model. The model is HONEST about what can panic: besides "
+       "the explicit index expressions it evaluates the slice windows of the kernels (codeOob, rsPass1Oob/rsPass2Oob for the two "
+       "passes of Reconstruct incl. the regenerate-before-parity control logic of fix 7b8525f, leoReconOob, updateOob) on the "
+       "lengths/capacities and the theorems prove those conditions unreachable from the argument checks (hypotheses stated: a "
+       "matrix encoder has d > 0 - C16_new_usable; a nil slice has length 0); pre-fix control logic (reconstructSomeOld, "
+       "updateOld) is shown to reach panic on the historical inputs. C16_new_total_int / C16_new_usable - for ALL integers "
        "(d,p) with 64-bit wrap and every option New returns an error or an encoder satisfying `usable` (Leopard FFT indices inside "
-       "the field); documented error per malformed shape. Tie: ~9,800 grammar-generated calls of every exported method and "
-       "New/NewStream over the whole int range; outcome classes ok/err/panic must agree; 20 s watchdog + goroutine-leak check; "
+       "the field); documented error per malformed shape. Tie: ~16,600 calls - grammar-generated ones of every exported method and "
+       "New/NewStream over the whole int range, EXHAUSTIVE grids of {nil, empty, empty-with-capacity, right size, other size} "
+       "over every argument position of a 2+1 matrix and a 2+2 Leopard encoder for Encode/Verify/Reconstruct/Update/"
+       "EncodeIdx, stream calls with failing readers/writers under the watchdog; outcome classes ok/err/panic must agree; 20 s watchdog + goroutine-leak check; "
        "every accepted encoder must Encode, Verify and Reconstruct.",
   note=TB + " Hangs and goroutine leaks are measured, not proved. Found and fixed through this check: Join(-1), AllocAligned(-1), "
-       "custom matrix with extra rows, shard-count overflow with a custom matrix.",
+       "custom matrix with extra rows, shard-count overflow with a custom matrix, Update with zero-length non-nil shards (bd2a6b4, "
+       "found under another VERIF_SEED in an unchanged-tree sweep).",
   design="4/C16"),
  "C17": dict(
   technique="Lean 4 kernel evaluation (decide +kernel) of regenerated table literals against shift-and-reduce arithmetic",
